@@ -327,8 +327,23 @@ func (d *Decls) StrLitFacts() []Term {
 	return out
 }
 
+// canonType removes aliases (type Price = price.Price) so that a type reached through an alias and the
+// same type written directly get the same dynamic type tag.
+func canonType(t types.Type) types.Type {
+	switch u := types.Unalias(t).(type) {
+	case *types.Pointer:
+		return types.NewPointer(canonType(u.Elem()))
+	case *types.Slice:
+		return types.NewSlice(canonType(u.Elem()))
+	case *types.Map:
+		return types.NewMap(canonType(u.Key()), canonType(u.Elem()))
+	default:
+		return u
+	}
+}
+
 func (d *Decls) TypeTag(t types.Type) int {
-	k := types.TypeString(t, nil)
+	k := types.TypeString(canonType(t), nil)
 	if n, ok := d.tags[k]; ok {
 		return n
 	}
